@@ -46,3 +46,10 @@ CASES += [
          old="         throw std::runtime_error( \"open check failed for re-opened file\");\n\n      reOpenFile();",
          new="         throw std::runtime_error( \"open check failed for re-opened file\");\n\n      mFile.close();\n      rollFiles();\n      mFile.open( filename, std::ios_base::out | std::ios_base::app | std::ios_base::ate);"),
 ]
+
+CASES += [
+    dict(id='c15-lock-guard-temporary', prop='C15', file='src/celma/log/files/handler.hpp', expect='R5',
+         old="   const std::lock_guard< L>  lock( mLockType);", new="   std::lock_guard< L>{ mLockType};"),
+    dict(id='c15-eq-unique-lock', prop='C15', file='src/celma/log/files/handler.hpp', expect=None,
+         old="   const std::lock_guard< L>  lock( mLockType);", new="   std::unique_lock< L>  guard( mLockType);"),
+]
